@@ -532,3 +532,42 @@ def distribution(lines):
         key = ln[:6]
         d[key] = d.get(key, 0) + 1
     return d
+
+
+# ---- third extension wave (builder GEN, notes/GEN.md): fn column_major_iter / row_major_iter (src/matrices/iterators.rs), ShapeIterator::from and the odometer step fn iter (src/tensors/indexing.rs) are
+# re-translated from <REPO>'s Rust source on every run (tools/gen_arith.py -> Gen/Arith.v) and
+# Proofs/GenIterP.v re-proves "generated = hand-written model" (C09_generated_steps_match_model).
+from tools import vlib as _vlib, gen_arith as _gen_arith
+
+TRUSTED = list(globals().get("TRUSTED", [])) + [
+    "tools/gen_arith.py (mini-Rust -> Gallina translator, notes/GEN.md): column_major_iter / row_major_iter, ShapeIterator::from and fn iter are re-translated on every run and proved equal to Model/MatrixIter.v / Model/ShapeIter.v (C09_generated_steps_match_model); `&mut` parameters are local variables whose final values are returned, ARRAY[e] reads / writes are bounds-checked list accesses, a `for` loop is a fold over the variables it assigns"]
+_GEN_FAILURE = None
+
+
+def pre_proof(cov):
+    """Regenerates coq/theories/Gen/Arith.v from <REPO>'s Rust source (under the build lock) and builds the
+    equivalence proofs; for a scratch tree (VERIF_REPO) a private copy is generated and proved instead."""
+    global _GEN_FAILURE
+    st, _GEN_FAILURE = _gen_arith.regenerate_and_prove(["theories/Proofs/GenIterP.vo"])
+    cov["translator"] = {k: st[k] for k in ("repo", "targets", "definitions", "not_translated", "changed") if k in st}
+    cov["translator"]["equivalence_proofs"] = "fail" if _GEN_FAILURE else "ok"
+
+
+_prev_extra = globals().get("extra")
+
+
+def extra(tier, seed, cov):
+    """the verdict of the generated-equals-model proofs (taken under the build lock in pre_proof), then the
+    translator's own table tests, then whatever extra() this module had before"""
+    out = []
+    if _GEN_FAILURE:
+        out.append(("generated-equivalence", {"property": "C09", "kind": "proof layer: a definition regenerated from the Rust source "
+                                              "no longer equals the hand-written model function", "repo": _vlib.REPO, **_GEN_FAILURE}))
+    else:
+        from tools import test_gen_arith
+        res = test_gen_arith.extra_violations("C09", tier)
+        cov.setdefault("translator", {})["self_test"] = "fail" if res else "table ok"
+        out += res
+    if _prev_extra is not None:
+        out += list(_prev_extra(tier, seed, cov))
+    return out
